@@ -43,7 +43,7 @@ OBLIGATIONS = {"exhaustive-grid": 500, "shape:1xk": 20, "shape:kx1": 20,
                "diagonal-step": 100, "inlet-on-chain": 20, "cycle-through-outlet": 20,
                "area>=2": 200, "river": 200, "flowpath": 100, "relation": 500,
                "sink": 50, "offgrid": 50, "invalid-code": 50, "tight-buffer": 5,
-               "flowpath:empty-area": 5, "api-sequence": 10}
+               "flowpath:empty-area": 5, "api-sequence": 10, "snake": 6}
 CODES = [1, 2, 4, 8, 16, 32, 64, 128, 0, 3]
 
 
@@ -401,6 +401,14 @@ def run(ctx):
                         ref = check_area(ctx, cat, model, o, list(inl), case, cyc=cyc)
                         if ref is not None and len(ref) >= 2:
                             ctx.nontrivial(codes, o, inl)
+    # ------------------------------------------ long winding channels (snakes) ----
+    for j, (nr, nc) in enumerate([(2, 4), (3, 3), (4, 2), (5, 6), (2, 9), (7, 3)]):
+        if j % ctx.nshards != ctx.shard % ctx.nshards and ctx.nshards > 1:
+            continue
+        for flip in (False, True):
+            codes = gen_snake(nr, nc, flip)
+            ctx.tag("snake")
+            run_grid(ctx, codes, {"kind": "grid", "codes": codes.tolist(), "snake": True})
     # ------------------------------------------------------------ random part ----
     rng = ctx.rng(2)
     nrand = 12 if ctx.tier == "quick" else 600
@@ -445,6 +453,22 @@ def run(ctx):
                 check_area(ctx, cat, model, o, [], dict(case, outlet=o, inlets=[],
                                                         nval=int(nval)),
                            nval=max(1, int(nval)), cyc=False)
+
+
+def gen_snake(nr, nc, flip=False):
+    """one channel winding through every cell of the grid, row by row"""
+    codes = np.zeros((nr, nc), dtype=np.int64)
+    for r in range(nr):
+        east = (r % 2 == 0)
+        for k in range(nc):
+            last = (k == nc - 1) if east else (k == 0)
+            codes[r, k] = (4 if last else (1 if east else 16))
+    rl, kl = nr - 1, (nc - 1 if (nr - 1) % 2 == 0 else 0)
+    codes[rl, kl] = 0
+    if flip:          # same channel, entered from the bottom (codes mirrored N <-> S)
+        codes = codes[::-1].copy()
+        codes[codes == 4] = 64
+    return codes
 
 
 def run_api_sequence(ctx, codes, case, rng):
